@@ -406,6 +406,8 @@ def run(ctx):
     known = (set(majors) | hmaj, set(subs) | hsub)   # "known" = named in include/sndfile.h (SF_FORMAT_DWVW_N &c. are not in the subtype table)
     if getattr(ctx, "replay", None):
         return replay(ctx, ctx.replay, known)
+    from .. import c03sites
+    site_consts = c03sites.gen_consts(ctx)          # Generated/SitesConsts.lean from this tree, before the Lean stage
     failed = ctx.lean_stage(modules_for("C03"))
     found_input = False
 
@@ -415,6 +417,11 @@ def run(ctx):
     from . import c03ties
     tie_problems = c03ties.run_ties(ctx, c)
     for (name, text, has_input) in tie_problems:
+        if has_input:
+            found_input = True
+        ctx.violation(name, text, no_input=not has_input)
+
+    for (name, text, has_input) in c03sites.run(ctx, site_consts):
         if has_input:
             found_input = True
         ctx.violation(name, text, no_input=not has_input)
